@@ -167,6 +167,7 @@ class Cell(NullCell):
 
     def calculate_hashes(self) -> None:
         # https://github.com/xssnick/tonutils-go/blob/master/tvm/cell/proof.go#L169
+        self._hashes, self._depths = [], []  # a second call must not append to the first call's results
         total_hash_count = self.level_mask.get_hash_index() + 1
         hash_count = total_hash_count
         if self.type_ == CellTypes.pruned_branch:
